@@ -1464,6 +1464,30 @@ func extrasHandler(raw json.RawMessage) map[string]any {
 			after, _ = intRows(rows)
 		}
 		out["after"] = after
+	case "layout":
+		l := geom.Layout(c.Val)
+		out["stride"], out["z"], out["m"], out["name"] = l.Stride(), l.ZIndex(), l.MIndex(), l.String()
+	case "maybeempty":
+		// Cs[0]: one entry per ordinate, 1 = the canonical "empty point" NaN, 0 = an ordinary number, 2 = another NaN
+		flat := make([]float64, len(c.Cs[0]))
+		for k, v := range c.Cs[0] {
+			switch v {
+			case 1:
+				flat[k] = math.Float64frombits(geom.PointEmptyCoordHex)
+			case 2:
+				flat[k] = math.Float64frombits(0x7FF8000000000001)
+			default:
+				flat[k] = float64(10 + k)
+			}
+		}
+		out["empty"], out["n"] = false, -1
+		ev, msg := call(func() {
+			p := geom.NewPointFlatMaybeEmpty(layoutOfStride(len(flat)), flat)
+			out["empty"], out["n"] = p.Empty(), len(p.FlatCoords())
+		})
+		if ev != "ok" {
+			out["pan"] = msg
+		}
 	}
 	return out
 }
